@@ -647,6 +647,8 @@ func c13RunWS(c *c13Case) {
 	opt.SendTimeout = st
 	opt.PingDuration = time.Duration(c.PingMs) * time.Millisecond
 	relay := mocrelay.NewRelay(h, opt)
+	// the option value stays the caller's: it is reused for something else after NewRelay
+	*opt = mocrelay.RelayOption{}
 	srv := httptest.NewServer(relay)
 
 	dctx, dcancel := context.WithTimeout(context.Background(), 5*time.Second)
